@@ -52,6 +52,16 @@ impl Listener for TcpListener {
     }
 }
 
+// With the simulation hooks on, `net::tcp::Listener` is the simulated-TCP seam type.
+#[cfg(era_consensus_verif)]
+#[async_trait::async_trait]
+impl Listener for zksync_concurrency::net::tcp::Listener {
+    type Stream = zksync_concurrency::net::tcp::Stream;
+    async fn accept(&mut self) -> anyhow::Result<Self::Stream> {
+        Ok(zksync_concurrency::net::tcp::Listener::accept(self).await?.0)
+    }
+}
+
 #[async_trait::async_trait]
 impl Listener for TlsListener<TcpListener, TlsAcceptor> {
     type Stream = TlsStream<tokio::net::TcpStream>;
